@@ -13,10 +13,11 @@ CONSTANTS
   Weights <- TimeOnly
   Surs = {0}
   CUs <- BaseCU
+  Rts <- NoRt
   NoDst = FALSE
   OkSubsets = FALSE
   NeedConsistent = FALSE
 INIT Init
 NEXT Next
-INVARIANTS TreeEdgeOK TreeRooted TreeMono TreeAllowed AtDone IterBound SizeBound
+INVARIANTS TreeEdgeOK TreeRooted TreeMono TreeAllowed AtDone IterBound SizeBound RtBound
 CHECK_DEADLOCK FALSE
